@@ -234,6 +234,9 @@ class Variable:
 
     @property
     def dtype(self):
+        # scipp 25.4 (measured): the dtype of a binned variable is the dtype of its event (data) buffer
+        if self._bins is not None:
+            return self._bins.dtype
         return self._dtype
 
     @property
@@ -353,6 +356,12 @@ class Variable:
     # ---------------------------------------------------------------- conversion
     def astype(self, dtype, *, copy=True):
         dt = as_dtype(dtype)
+        if self._bins is not None:
+            from .bins import map_contents
+            if self._bins.dtype == dt and not copy:
+                ALIAS_LOG.append(('astype', self))
+                return self
+            return map_contents(self, lambda d: d.astype(dt, copy=True))
         if not copy:
             CONV_LOG.append((self._buf, None, dt))
         if dt == self._dtype:
@@ -1024,7 +1033,8 @@ def power(a: Variable, n):
         nv = nv.const_value()
         if a._dtype.name in _INTS and ndt.name in _INTS and a._dtype != ndt:
             raise DTypeError('pow int32/int64 mix')
-        dt = _promote(a._dtype, ndt, 'pow') if a._bins is None else None
+        # scipp 25.4 (measured): a float base keeps its dtype whatever the exponent's dtype; int ** float -> float64
+        dt = (a._dtype if a._dtype.name in _FLOATS else _promote(a._dtype, ndt, 'pow')) if a._bins is None else None
     else:
         nv = Fraction(n)
         dt = a._dtype if isinstance(n, int) or a._dtype.name in _FLOATS else DType.float64
@@ -1050,6 +1060,10 @@ def compare(a, b, op):
     b = _as_var(b)
     if a is None or b is None:
         return NotImplemented
+    if a._bins is not None or b._bins is not None:
+        from .bins import binned_binary_fn
+
+        return binned_binary_fn(a, b, lambda x, y: compare(x, y, op))
     if a.elem or b.elem:
         if op not in ('==', '!='):
             raise DTypeError('ordering of vectors')
